@@ -5,7 +5,9 @@ go 1.26.8
 require (
 	github.com/anishathalye/porcupine v1.3.0
 	github.com/cossacklabs/acra v0.0.0
+	github.com/cossacklabs/pg_query_go/v5 v5.1.0
 	github.com/cossacklabs/themis/gothemis v0.14.0
+	github.com/jackc/pgx/v5 v5.7.2
 	github.com/sirupsen/logrus v1.6.0
 	go.etcd.io/bbolt v1.3.6
 )
@@ -29,7 +31,6 @@ require (
 	github.com/beorn7/perks v1.0.1 // indirect
 	github.com/cenkalti/backoff/v3 v3.0.0 // indirect
 	github.com/cespare/xxhash/v2 v2.2.0 // indirect
-	github.com/cossacklabs/pg_query_go/v5 v5.1.0 // indirect
 	github.com/fatih/color v1.16.0 // indirect
 	github.com/go-redis/redis/v7 v7.0.1 // indirect
 	github.com/go-sql-driver/mysql v1.5.0 // indirect
@@ -55,7 +56,6 @@ require (
 	github.com/hashicorp/vault/api v1.3.0 // indirect
 	github.com/hashicorp/vault/sdk v0.3.0 // indirect
 	github.com/hashicorp/yamux v0.0.0-20180604194846-3520598351bb // indirect
-	github.com/jackc/pgx/v5 v5.7.2 // indirect
 	github.com/lib/pq v1.10.9 // indirect
 	github.com/mattn/go-colorable v0.1.13 // indirect
 	github.com/mattn/go-isatty v0.0.20 // indirect
